@@ -911,6 +911,10 @@ class FuncBitShiftLeft(ValueFunc):
     def execute(self, args, environment, pos):
         a = args.getInt("a").value
         n = args.getInt("n").value
+        if n < 0:
+            raise CklRuntimeError(
+                ValueString("ERROR"), f"Cannot shift by {n} bits", pos
+            )
         if n >= 32:
             return ValueInt(0)
         return ValueInt(((a & 0xFFFFFFFF) << n) & 0xFFFFFFFF)
@@ -937,6 +941,10 @@ class FuncBitShiftRight(ValueFunc):
     def execute(self, args, environment, pos):
         a = args.getInt("a").value
         n = args.getInt("n").value
+        if n < 0:
+            raise CklRuntimeError(
+                ValueString("ERROR"), f"Cannot shift by {n} bits", pos
+            )
         return ValueInt((a & 0xFFFFFFFF) >> n)
 
 
